@@ -1013,10 +1013,8 @@ def canonical_forms(tree: ast.Module) -> tuple[int, int]:
     (1) `a, b = x, y` with plain names or attribute paths (`self.a`) on the left and a tuple display of the same length on the right is split into `a = x` / `b = y`
     when no later value mentions an earlier target and no later value contains a call (so evaluating it cannot observe the earlier binding
     through a closure) — x is evaluated before y either way;  (2) `not (a and b)` / `not (a or b)` is distributed to `not a or not b` /
-    `not a and not b` (same operands evaluated in the same order with the same short-circuit);  (3) a simple statement (no suspension) that
-    ends every branch of an if/elif/else chain — each branch keeping at least one other statement — is written once after the chain.
-    Returns (splits, distributions); the number of sunk statements is left in ``canonical_forms.last_sunk``."""
-    n_split = n_dist = n_sunk = 0
+    `not a and not b` (same operands evaluated in the same order with the same short-circuit).  Returns (splits, distributions)."""
+    n_split = n_dist = 0
     captured = {x.id for sc in ast.walk(tree) if isinstance(sc, (ast.Lambda, ast.GeneratorExp, ast.ListComp, ast.SetComp, ast.DictComp)) for x in ast.walk(sc) if isinstance(x, ast.Name)}
     fns = [f for f in ast.walk(tree) if isinstance(f, (ast.FunctionDef, ast.AsyncFunctionDef))]
     for f in fns:
@@ -1058,6 +1056,40 @@ def canonical_forms(tree: ast.Module) -> tuple[int, int]:
         # an earlier value must not read a later target either (it would see the old binding in both forms — fine) — nothing to check
         return True
 
+    def block(b):
+        nonlocal n_split
+        out = []
+        for st in b:
+            for fld in ("body", "orelse", "finalbody"):
+                sub = getattr(st, fld, None)
+                if isinstance(sub, list) and sub and isinstance(sub[0], ast.stmt):
+                    setattr(st, fld, block(sub))
+            for h in getattr(st, "handlers", []) or []:
+                h.body = block(h.body)
+            for c_ in getattr(st, "cases", []) or []:
+                c_.body = block(c_.body)
+            if splittable(st):
+                n_split += 1
+                for t, v in zip(st.targets[0].elts, st.value.elts):
+                    out.append(ast.copy_location(ast.Assign(targets=[t], value=v, lineno=st.lineno), st))
+            else:
+                out.append(st)
+        return out
+
+    tree.body = block(tree.body)
+    D().visit(tree)
+    ast.fix_missing_locations(tree)
+    return n_split, n_dist
+
+
+def sink_common_tails(tree: ast.Module) -> int:
+    """Canonical form, applied to every analysed module late in the pipeline (after temporaries have been folded back, before the
+    redundant-else flattening): a simple statement (no suspension) that ends *every* branch of an if/elif/else chain — each branch keeping
+    at least one other statement — is written once after the chain (repeatedly, for several common trailing statements).  It is executed
+    after the chain whichever branch ran, so this is an identity; it makes "tail hoisted out of both branches" and "tail pushed into both
+    branches" the same program for the rules."""
+    n_sunk = 0
+
     def leaves(if_node):
         """the branch bodies of an if / elif / ... / else chain that ends in an else, or None"""
         out_ = [if_node.body]
@@ -1069,7 +1101,7 @@ def canonical_forms(tree: ast.Module) -> tuple[int, int]:
         return out_ + [if_node.orelse]
 
     def block(b):
-        nonlocal n_split, n_sunk
+        nonlocal n_sunk
         out = []
         for st in b:
             for fld in ("body", "orelse", "finalbody"):
@@ -1081,7 +1113,7 @@ def canonical_forms(tree: ast.Module) -> tuple[int, int]:
             for c_ in getattr(st, "cases", []) or []:
                 c_.body = block(c_.body)
             if isinstance(st, ast.If):
-                # (3) a statement that ends *every* branch of an if/elif/else chain is executed after the chain whichever branch ran:
+                # a statement that ends *every* branch of an if/elif/else chain is executed after the chain whichever branch ran:
                 # written once after it (repeatedly, for several common trailing statements)
                 sunk = []
                 while True:
@@ -1100,19 +1132,12 @@ def canonical_forms(tree: ast.Module) -> tuple[int, int]:
                 out.append(st)
                 out.extend(sunk)
                 continue
-            if splittable(st):
-                n_split += 1
-                for t, v in zip(st.targets[0].elts, st.value.elts):
-                    out.append(ast.copy_location(ast.Assign(targets=[t], value=v, lineno=st.lineno), st))
-            else:
-                out.append(st)
+            out.append(st)
         return out
 
     tree.body = block(tree.body)
-    D().visit(tree)
     ast.fix_missing_locations(tree)
-    canonical_forms.last_sunk = n_sunk
-    return n_split, n_dist
+    return n_sunk
 
 
 def restore_spellings(tree: ast.Module, relpath: str) -> int:
@@ -1179,6 +1204,22 @@ def restore_spellings(tree: ast.Module, relpath: str) -> int:
                         n_done += 1
         ast.fix_missing_locations(fn)
 
+        def neg_of(t_):
+            """the negation of a test, with its ordered comparisons mirrored into the reference's spelling where that is the one on record"""
+            g = _negated(t_)
+            if g is None:
+                return None
+
+            class M(ast.NodeTransformer):
+                def visit_Compare(self, n):
+                    self.generic_visit(n)
+                    if len(n.ops) == 1 and type(n.ops[0]) in _MIRROR and _txt(n) not in rc:
+                        m = ast.Compare(left=n.comparators[0], ops=[_MIRROR[type(n.ops[0])]()], comparators=[n.left])
+                        if _txt(m) in rc:
+                            return m
+                    return n
+            return M().visit(copy.deepcopy(g))
+
         class T(ast.NodeTransformer):
             def visit_Compare(self, n):
                 nonlocal n_done
@@ -1223,6 +1264,13 @@ def restore_spellings(tree: ast.Module, relpath: str) -> int:
                     if _txt(ch) in rch:
                         n_done += 1
                         return ast.copy_location(ch, n)
+                if isinstance(n.op, ast.Or) and len(n.values) == 2 and all(isinstance(v, ast.Compare) and len(v.ops) == 1 and type(v.ops[0]) in _NEGATE for v in n.values):
+                    g1, g2 = _negated(n.values[0]), _negated(n.values[1])
+                    if isinstance(g2.left, (ast.Name, ast.Constant)) and ast.dump(g1.comparators[0]) == ast.dump(g2.left):
+                        ch = ast.Compare(left=g1.left, ops=[g1.ops[0], g2.ops[0]], comparators=[g1.comparators[0], g2.comparators[0]])
+                        if _txt(ch) in rch:
+                            n_done += 1
+                            return ast.copy_location(ast.UnaryOp(op=ast.Not(), operand=ch), n)
                 return n
 
             def visit_While(self, n):
@@ -1241,7 +1289,7 @@ def restore_spellings(tree: ast.Module, relpath: str) -> int:
                 nonlocal n_done
                 self.generic_visit(n)
                 if _txt(n.test) not in ri:
-                    neg = _negated(n.test)
+                    neg = neg_of(n.test)
                     if neg is not None and _txt(neg) in ri:
                         n_done += 1
                         return ast.copy_location(ast.IfExp(test=neg, body=n.orelse, orelse=n.body), n)
@@ -1251,7 +1299,7 @@ def restore_spellings(tree: ast.Module, relpath: str) -> int:
                 nonlocal n_done
                 self.generic_visit(n)
                 if n.orelse and _txt(n.test) not in ri:
-                    neg = _negated(n.test)
+                    neg = neg_of(n.test)
                     if neg is not None and _txt(neg) in ri:
                         n_done += 1
                         return ast.copy_location(ast.If(test=neg, body=n.orelse, orelse=n.body), n)
@@ -1275,7 +1323,7 @@ def restore_spellings(tree: ast.Module, relpath: str) -> int:
             for i, st in enumerate(b[:-1]):
                 rest = b[i + 1:]
                 if isinstance(st, ast.If) and not st.orelse and terminates(st.body) and terminates(rest) and _txt(st.test) not in ri:
-                    neg = _negated(st.test)
+                    neg = neg_of(st.test)
                     if neg is not None and _txt(neg) in ri:
                         n_done += 1
                         new_if = ast.copy_location(ast.If(test=neg, body=rest, orelse=[]), st)
